@@ -116,6 +116,12 @@ func (w *World) verifyFunc(con *Contract) (res *FuncResult) {
 			return
 		}
 	}
+	// call-site clauses must bind: a clause that names a call the current source does not make is a contract
+	// that silently says nothing (typically after the code was changed to call something else)
+	if msg := unmatchedClause(w, fn, con); msg != "" {
+		res.Err = "binding: " + msg
+		return
+	}
 	// postconditions at every return
 	for _, rp := range in.rets {
 		ri := rp.idx
@@ -349,4 +355,47 @@ func (in *Inst) frameCheck(con *Contract, rp retPoint, ri int) {
 		goal := sImp(sAnd(conds...), sEq(sSel(cr, r), sSel(ce, r)))
 		e.obls = append(e.obls, &Obligation{Name: fmt.Sprintf("%s#frame:%s@ret%d", e.fname, name, ri), Kind: "frame", Pos: rp.pos, Step: len(e.steps), Reach: rp.st.reach, Goal: goal, Blk: rp.blk})
 	}
+}
+
+// unmatchedClause: the first call-site clause of con (for the property being checked) whose callee name matches
+// no call in fn, its closures or the repository functions reachable from it, or whose ordinal exceeds the
+// number of such calls written in fn itself.
+func unmatchedClause(w *World, fn *ssa.Function, con *Contract) string {
+	names := map[string]bool{}
+	seen := map[*ssa.Function]bool{fn: true}
+	direct := map[string]int{}
+	for _, b := range fn.Blocks {
+		collectCallNames(b.Instrs, names, seen, 0)
+		for _, ins := range b.Instrs {
+			if c, ok := ins.(*ssa.Call); ok {
+				direct[calleeName(&c.Call)]++
+				if qn := calleeQName(&c.Call); qn != "" {
+					direct[qn]++
+				}
+			}
+		}
+	}
+	check := func(kind, callee string, ord int, prop string) string {
+		if callee == "@entry" || w.otherProp(prop) {
+			return ""
+		}
+		if !names[callee] {
+			return fmt.Sprintf("%s clause of %s names the call %q, which the current source does not make", kind, con.Key, callee)
+		}
+		if ord >= 0 && direct[callee] <= ord {
+			return fmt.Sprintf("%s clause of %s names call #%d of %q, but the function makes only %d such call(s)", kind, con.Key, ord, callee, direct[callee])
+		}
+		return ""
+	}
+	for _, ca := range con.Asserts {
+		if m := check("assert", ca.Callee, ca.Ordinal, ca.Clause.Prop); m != "" {
+			return m
+		}
+	}
+	for _, gu := range con.Ghosts {
+		if m := check("ghostset", gu.Callee, gu.Ordinal, ""); m != "" {
+			return m
+		}
+	}
+	return ""
 }
